@@ -605,7 +605,44 @@ func fineEmptyVsRequeue(seed uint64, viaReq bool) []lib.Case {
 	return []lib.Case{cr.finish(name+"#"+strconv.FormatUint(seed, 10), seed, hidden, ignore)}
 }
 
+// A publish that has passed the topic's exit check while the topic is being deleted: the
+// delete must wait for it (it takes the topic's write lock before it empties and removes the
+// queues), so that nothing the publish writes to disk survives the delete.
+func finePubWhileTopicDeleting(seed uint64) []lib.Case {
+	cr := newFineCase(seed, 0) // mem-queue-size 0: the put goes to the disk queue
+	cr.opCreateTopic(1)
+	reached, release := nsqd.VerifArmPark("topic-put:after-exit-check", 1)
+	cr.nextTag++
+	body := cr.body(cr.nextTag)
+	now := cr.now()
+	pubDone := make(chan string, 1)
+	go func() { ok, _, _ := cr.pub.cmdReply(pubPayload(tname(1), body)); pubDone <- ok }()
+	okp := waitReached(reached, 3*time.Second)
+	cr.tag(fmt.Sprintf("publish-parked=%v", okp))
+	delDone := make(chan int, 1)
+	go func() { delDone <- cr.post("/topic/delete", url.Values{"topic": {tname(1)}}, nil) }()
+	time.Sleep(150 * time.Millisecond)
+	release()
+	ans := <-pubDone
+	code := <-delDone
+	resp := "ROk"
+	if ans != "OK" {
+		resp = "RInvalid"
+	}
+	cr.ev(fmt.Sprintf("EOp (OPub 1 false [%d]%%N %d 0%%Z %s) %s", cr.nextTag, len(body), z(now), resp))
+	cr.ev(fmt.Sprintf("EOp (ODeleteTopic 1) %s", httpResp(code)))
+	delete(cr.topics, 1)
+	cr.tag("delete-topic")
+	cr.nontriv = true
+	cr.after()
+	// a topic re-created under the same name starts empty
+	cr.opCreateTopic(1)
+	cr.opCreateChan(1, 1)
+	return []lib.Case{cr.finish("pub-vs-topic-delete#"+strconv.FormatUint(seed, 10), seed, nil, nil)}
+}
+
 var fineScenarios = map[string]func(uint64) []lib.Case{
+	"pub-vs-topic-delete":   finePubWhileTopicDeleting,
 	"scan-vs-empty":         func(seed uint64) []lib.Case { return fineEmptyVsRequeue(seed, false) },
 	"req-vs-empty":          func(seed uint64) []lib.Case { return fineEmptyVsRequeue(seed, true) },
 	"empty-vs-wakeup":       fineEmptyWakesConsumer,
@@ -625,7 +662,7 @@ var fineScenarios = map[string]func(uint64) []lib.Case{
 // which forced interleavings each property's profile runs
 var fineByProfile = map[string][]string{
 	"c01": {"pump-vs-sub", "deliver-vs-disconnect"},
-	"c08": {"deliver-vs-empty", "sub-vs-topic-delete", "fin-vs-empty", "empty-vs-wakeup", "scan-vs-empty", "req-vs-empty"},
+	"c08": {"deliver-vs-empty", "sub-vs-topic-delete", "fin-vs-empty", "empty-vs-wakeup", "scan-vs-empty", "req-vs-empty", "pub-vs-topic-delete"},
 	"c03": {"fin-vs-empty", "deliver-vs-empty", "pause-vs-pump"},
 	"c13": {"fin-vs-empty", "deliver-vs-empty"},
 	"c02": {"deliver-vs-disconnect", "touch-then-scan"},
